@@ -147,6 +147,9 @@ func (c *chanv) recv(elem types.Type) (value, bool) {
 	if c.closed {
 		return zero(elem), false
 	}
+	if tryRunGoroutines() {
+		return c.recv(elem)
+	}
 	panic(pathAbort{"receive would block", false})
 }
 
